@@ -118,6 +118,12 @@ def check_poll_fn(ctx, rule, f, sites):
         cx_args = [a for a in t["args"] if a["k"] in ("move", "copy") and "task::Context<" in b.locals[a["place"]["l"]]["ty"]] or [t["args"][-1]]
         cxe = b.expr_of_op(cx_args[0])
         own = contains(cxe, lambda x: x[0] == "param" and x[1] == cx) or contains(cxe, lambda x: x[0] == "call" and ecall_matches(x, r"get_context$"))
+        if own and strip(cxe)[0] != "param":
+            # a context built here (`Context::from_waker(..)`): it is the caller's only if its waker is the caller's waker as of THIS
+            # poll - not one remembered in a field of self from an earlier poll (the task may have moved on to another waker)
+            cached = contains(cxe, lambda x: x[0] == "field" and contains(x[1], lambda y: y[0] == "param" and y[1] == 1) and not contains(x, lambda y: y[0] == "param" and y[1] == cx))
+            if cached and contains(cxe, lambda x: x[0] == "call" and ecall_matches(x, r"Context::<?.*>?::from_waker$|::from_waker$")):
+                own = False
         if not own:
             ctx.violated(rule.replace(".1", ".2"), f, "foreign-context:" + name, b.line_at((blk, 10 ** 6)),
                          "input `%s` is polled with `%s`, not with the caller's context: the caller's waker is not registered with that input" % (name, fmt(cxe, 4)))
